@@ -114,6 +114,31 @@ def md_paths(text: str):
     return out
 
 
+_NUM = re.compile(r"-?\d+(?:\.\d+)?(?:[eE][+-]?\d+)?\Z")
+
+
+def md_numbers(text: str):
+    """[(key, float)] for every Markdown item whose whole value text is a number (values inside fenced blocks are skipped)"""
+    out = []
+    in_fence = None
+    for ln in text.split("\n"):
+        if in_fence:
+            if ln.strip() == in_fence:
+                in_fence = None
+            continue
+        m = _MD_ITEM.match(ln) or _MD_TOP.match(ln)
+        if not m:
+            continue
+        raw = m.group(2).strip()
+        f = re.match(r"^(`{3,})", raw)
+        if f:
+            in_fence = f.group(1)
+            continue
+        if _NUM.match(raw):
+            out.append((m.group(1), float(raw)))
+    return out
+
+
 def flatten_blocks_vs_maps(leaves):
     """JSON cannot distinguish a block from an inline-map value: normalise model leaves whose value is a dict (a bare
     inline map, which only the API can construct) into nested paths, so both sides are comparable."""
